@@ -188,3 +188,41 @@ PROPS['C10'] = dict(
         [dict(target='when', family='whenany', mode='random', cases=400000, workers=14, timeout=3000),
          dict(target='when', family='whenany', mode='dfs', bound=3, workers=12, timeout=3000, args=['--dfs-cap', '300000'])]),
 )
+
+PROPS['C11'] = dict(
+    level='exploration', assumptions=FIBER_ASSUME + ['timeouts and producer delays run on the fiber back end\'s virtual clock'],
+    technique='rapidcheck-generated (futures, wait kind/form, virtual delays and deadline, follow-ups, schedule) cases + '
+              'bounded-exhaustive schedules of the smallest programs; readiness / deadline / exactly-once-after / '
+              'event-liveness oracle',
+    level_text='1..3 futures completed by producer fibers after generated virtual delays are waited on with Wait, WaitFor '
+               'or WaitUntil in the single/variadic and both iterator forms (shared and mixed inputs for the untimed '
+               'form) with a deadline before, between or after the completions; afterwards each future gets a generated '
+               'follow-up (Get, DetachInline, Wait+Touch, ThenInline, second WaitFor). true => all Ready and every Set '
+               'had begun; false => virtual now >= deadline; each value is delivered exactly once afterwards; a harness '
+               'Event passed through the public template parameter plus ASan stack-use-after-return prove no completion '
+               'touches the waiter after the call returned; no parked fiber.',
+    level_note='Trusts the virtual clock / scheduler substrate (its crashes surface as worker crashes).',
+    jobs=q(
+        [dict(target='wait', family='wait', mode='random', cases=20000, workers=12, timeout=600),
+         dict(target='wait', family='wait', mode='dfs', bound=2, workers=4, timeout=600, args=['--dfs-cap', '6000'])],
+        [dict(target='wait', family='wait', mode='random', cases=300000, workers=14, timeout=3000),
+         dict(target='wait', family='wait', mode='dfs', bound=3, workers=12, timeout=3000, args=['--dfs-cap', '200000'])]),
+)
+PROPS['C16'] = dict(
+    level='exploration', assumptions=FIBER_ASSUME + ['Add is only generated for fibers that still hold a token (documented rule)'],
+    technique='rapidcheck stateful histories (Add/Done workers, attached/consumed futures, six waiter kinds, OneShotEvent '
+              'rounds) x explorer schedules + bounded-exhaustive schedules of one-waiter programs; counter-model oracle',
+    level_text='Token-holding worker fibers Add/Done, futures are Attach-ed / Consume-d (variadic and iterator forms) and '
+               'completed by producer fibers, and waiters of every kind (Wait, WaitFor, WaitUntil, co_await inline / sticky '
+               '/ on(e)) arrive before, during and after the last Done; OneShotEvent rounds with Wait/WaitFor/TryAdd/'
+               'co_await, Call vs Set and Reset. The harness counter is decremented before each Done/completion, so a '
+               'released waiter must observe zero; every waiter is released exactly once and none stays parked; timed '
+               'false => deadline passed; attached futures are not Ready before their Set began and keep their value; '
+               'consumed payloads are destroyed once.',
+    level_note='Trusts scheduler substrate and explorer; virtual clock for timed waits.',
+    jobs=q(
+        [dict(target='wait', family='waitgroup', mode='random', cases=20000, workers=12, timeout=600),
+         dict(target='wait', family='waitgroup', mode='dfs', bound=2, workers=4, timeout=600, args=['--dfs-cap', '6000'])],
+        [dict(target='wait', family='waitgroup', mode='random', cases=300000, workers=14, timeout=3000),
+         dict(target='wait', family='waitgroup', mode='dfs', bound=3, workers=12, timeout=3000, args=['--dfs-cap', '200000'])]),
+)
